@@ -27,7 +27,7 @@ results=""
 for C in $CHECKS; do
   # the checks run against the scratch worktree with the change applied (symgo -repo), so /repo itself stays untouched
   git -C $WT checkout -q -- . && git -C $WT apply $patch || { echo "cannot apply"; exit 1; }
-  cd /verif && timeout 3000 ./bin/symgo check -repo $WT -prop $C -no-evidence > /tmp/seed_check_$P-${I}_$C.log 2>&1; code=$?
+  cd /verif && timeout 3000 ./bin/symgo check -repo $WT -prop $C -no-evidence -stop-on-violation > /tmp/seed_check_$P-${I}_$C.log 2>&1; code=$?
   git -C $WT checkout -q -- .
   nviol=$(grep -c "^VIOLATION" /tmp/seed_check_$P-${I}_$C.log)
   first=$(grep -m1 "^VIOLATION\|^INCONCLUSIVE\|^ENCODING\|^VACUOUS" /tmp/seed_check_$P-${I}_$C.log | cut -c1-200)
